@@ -21,7 +21,8 @@ PROP = {'gen': [],
                'in any partition into reads (empty reads allowed) yields the same events and the same final state as one read; the '
                'events are the leftmost-longest tokenisation (spec munch) and spans plus pending bytes reassemble the stream; the '
                'loops terminate within a stated fuel bound. Instantiated at the production automata regenerated from the source each '
-               'run. Model tied to the code by a differential run at two levels.',
+               'run. Model tied to the code by a differential run at two levels; for generated pattern sets every emitted token is also checked '
+               'against the languages of the patterns (verified regex matcher of C15).',
  'level_note': 'Trusted: Coq kernel + vm_compute; hand-written model of MatcherDecoder::{decode, decode_byte, take_candidate} and '
                'Decoder::decode_into validated by the correspondence run; DFA dump hook + translate/dfa.py; readers expose all their '
                'bytes in one fill_buf (Cursor / slice, as at every call site). No axioms.',
